@@ -380,17 +380,50 @@ func checkRuleCase(c *Ctx, ev *evaluator, cs *evalCase, key string) {
 	walkBlocks = func(list []ast.Stmt) {
 		regHere := map[types.Object]token.Pos{}
 		placedHere := map[types.Object]bool{}
-		for _, st := range list {
-			switch s := st.(type) {
-			case *ast.ExprStmt:
-				if call, ok := s.X.(*ast.CallExpr); ok {
+		regIn := func(n ast.Node) {
+			if n == nil {
+				return
+			}
+			ast.Inspect(n, func(n ast.Node) bool {
+				switch n.(type) {
+				case *ast.BlockStmt, *ast.FuncLit:
+					return false
+				}
+				if call, ok := n.(*ast.CallExpr); ok {
 					if fo, ok := objOf(info, call.Fun).(*types.Func); ok && fo.Name() == "AddProduction" && len(call.Args) >= 1 {
 						if id, ok := ast.Unparen(call.Args[0]).(*ast.Ident); ok {
 							regHere[info.Uses[id]] = call.Pos()
 						}
 					}
 				}
+				return true
+			})
+		}
+		for _, st := range list {
+			switch s := st.(type) {
+			case *ast.ExprStmt:
+				regIn(s.X)
+			case *ast.IfStmt:
+				// a registration in the condition: whatever the body places is placed for some outcomes only
+				if s.Init != nil {
+					regIn(s.Init)
+				}
+				regIn(s.Cond)
+			case *ast.SwitchStmt:
+				if s.Init != nil {
+					regIn(s.Init)
+				}
+				if s.Tag != nil {
+					regIn(s.Tag)
+				}
 			case *ast.AssignStmt:
+				for _, r := range s.Rhs {
+					if call, ok := ast.Unparen(r).(*ast.CallExpr); ok {
+						if fo, ok := objOf(info, call.Fun).(*types.Func); ok && fo.Name() == "AddProduction" {
+							regIn(r)
+						}
+					}
+				}
 				for _, r := range s.Rhs {
 					ast.Inspect(r, func(n ast.Node) bool {
 						if id, ok := n.(*ast.Ident); ok {
